@@ -129,6 +129,89 @@ CHECKS = {
              "document-order list; one container per session. Trusted: kernel + vm_compute, tools/c08.py, SHA-256 injective.",
         technique="Coq proof + model/implementation correspondence + independent oracle",
         design_ref="DESIGN.md 6.C08, 10.4"),
+
+    "C02": dict(
+        category="proof",
+        text="Closed theorems over definitions regenerated from the SDK source on every run (reference constructor checks "
+             "AASd-121..128 for all key lists incl. the order of the reported constraint, the 13 bounded integer ranges, the 16 "
+             "constrained string checks incl. AASd-130 = the four XML Char ranges and the version/revision pattern, idShort syntax) "
+             "and over hand-written state machines tied by correspondence: accept => well-formed and reject => unchanged + documented "
+             "error, by induction over all histories, for ConstrainedList with Entity AASd-014 / AssetInformation AASd-131 / "
+             "HasSemantics AASd-118, AdministrativeInformation AASd-005, BasicEventElement direction/UTC/max_interval, language "
+             "string sets and category AASd-090 (File/Blob exemption: refuted + partial theorem, open known finding). Typed values "
+             "(AASd-020 / value vs value_type) and the namespace-level list constraints are covered by the oracle and by C01 respectively.",
+        note="Trusted: Coq kernel + vm_compute; translators tools/py2coq/{c02engine,refchecks,intranges,strconstraints}.py (validated "
+             "every run against the Python originals); re.fullmatch decides membership for the escape-free patterns; str.isalpha on "
+             "ASCII (visible premise, checked on 128 points); ConstraintsSpec.v transcribes constraints.rst / Part 1 / XSD Part 2; "
+             "ConstraintsModel.v tied by differential runs only.",
+        technique="fail-closed Python-ast translation + Coq proofs (derivative-based regex theory, induction over op lists) + "
+                  "differential execution against the public API + text-derived oracles",
+        design_ref="DESIGN.md 6.C02, 10.4"),
+    "C04": dict(
+        category="proof",
+        text="The XML adapter is translated on every run into per-class writer/reader rule tables (271/263 rules, 26 enum tables; "
+             "helpers pinned by AST fingerprint); a generic Coq theorem proves dec(enc v) = v for every well-formed value at every "
+             "depth for all tables satisfying a decidable compat predicate; compat is established for the generated tables by "
+             "vm_compute; store level (unique ids => same identifiables, grouped by top-level list) and 52 single-object "
+             "writer/reader pairs are covered. Tied by enc/dec/store correspondence and an adapter-independent canonicaliser oracle "
+             "with XML lexical stress strings.",
+        note="Trusted: Coq kernel + vm_compute; tools/py2coq/xmlrules.py (helper semantics hand-written in XmlCodec.v, pinned by "
+             "fingerprint, validated by the correspondence); XmlMeta.v cross-checked every run; lxml print/parse is the identity on "
+             "(tag, text, children) trees with empty text = no text; typed values identified by (type, literal) (C06); empty plain "
+             "strings excluded by AASd-100. Six open findings: single-object writer lacks lang-string-set / value-list branches.",
+        technique="fail-closed ast translation to rule tables + generic codec round-trip theorem + finite compat check + correspondence",
+        design_ref="DESIGN.md 6.C04, 10.4"),
+    "C09": dict(
+        category="proof",
+        text="The exception-flow model of both readers (about 600 primitive sites, 194 function instances, raise-sets per primitive, "
+             "caught tuples) is regenerated from source on every run; a sound escape analysis (post-fixpoint check by vm_compute) "
+             "proves over the abstract nondeterministic semantics: failsafe mode raises nothing on a well-formed document, strict "
+             "mode only the four documented classes, malformed bytes only the syntax errors (JSON) / empty result (XML failsafe), an "
+             "existing identifier only KeyError; a hand-written walk model gives failsafe totality, strict-refines-failsafe, error "
+             "classes and isolation of undamaged top-level items by induction. Tied by sys.monitoring event correspondence "
+             "(every observed exception within the raise-sets / escape sets) and a damage-operator oracle campaign.",
+        note="Trusted: Coq kernel + vm_compute; tools/py2coq/readerflow.py and its hand-written PRIMS raise-set table (validated each "
+             "run against observed exceptions); json and lxml parsers; object store obeys the dict contract (C13). Theorems quantify "
+             "over model executions; nested-damage isolation is oracle-only.",
+        technique="fail-closed ast translation + sound escape analysis with post-fixpoint check + induction on the walk + event correspondence",
+        design_ref="DESIGN.md 6.C09, 10.4"),
+    "C12": dict(
+        category="proof",
+        text="Closed theorems over a functional tree model with identity tokens of the repaired update_from/update_nss_from: "
+             "path-wise equality with the copy at every depth (class, key, payload, qualifier/extension values, child source), "
+             "identity of root / survivors / surviving qualifiers, one-level child law (added, removed, updated in place, replaced "
+             "when retyped), key uniqueness preserved, root source changes only when asked. Tied by differential execution on "
+             "(live, edit(live)) pairs; oracle = canonical equality + identity + C01 checker + detachment + source rule. One open "
+             "finding (an Operation variable moved between variable sets raises AASd-022 half way).",
+        note="Trusted: kernel + vm_compute; plain attributes are one payload token per node; one child collection per node; "
+             "SubmodelElementList and Operation are oracle-only.",
+        technique="Coq proof (induction over idShort paths) + correspondence + oracle",
+        design_ref="DESIGN.md 6.C12, 10.4"),
+    "C16": dict(
+        category="proof",
+        text="Closed theorems over an executable model of couchdb.py and of a server obeying CouchDB's documented document-API MVCC "
+             "rules: map refinement for every history, no lost update in any state, a fresh commit visible to every reader, safe "
+             "delete, every injected fault (non-2xx, non-JSON body, drop) ends in a documented error with the server unchanged, id "
+             "quoting injective, revision-store key agreement across operations, routing for all legal ids (reserved '_' ids: "
+             "refuted, open known finding). Tied by differential execution of the real client against a loopback fake with a "
+             "second actor and fault injection.",
+        note="Partial: a real CouchDB and the network are not exercised. Trusted: kernel; CouchDB's rules as written in Couch.v; the "
+             "fake tools/fakes/couchdb_server.py; payload abstracted to idShort, revisions to generations; calls atomic.",
+        technique="Coq proof on the protocol model + differential execution against a loopback fake",
+        design_ref="DESIGN.md 6.C16, 10.4"),
+    "C20": dict(
+        category="proof",
+        text="Closed theorems over (a) a state-manager model (overall status = worst step status for every step list), (b) the "
+             "try/except structure of the three compliance_check_* modules translated on every run: nothing escapes the six "
+             "schema/deserialisation check functions, the six comparing functions may only let NotImplementedError through "
+             "(unordered SubmodelElementList: open known finding, full statement refuted), (c) the compared-attribute table of "
+             "AASDataChecker translated on every run: every metamodel attribute is compared (completeness) and equal data compares "
+             "equal. Tied by state-manager op sequences, containment of every observed exception in the model's escape sets and "
+             "single-leaf mutations; oracle on arbitrary bytes, non-AAS documents, damaged packages and SDK-written files.",
+        note="Partial: the raise table is hand-written (tested by containment); schema validators, readers and AASXReader are not "
+             "modelled; 'own output passes' is oracle-only (needs C05/C03); escape analysis is path-insensitive.",
+        technique="fail-closed ast translation + finite vm_compute checks lifted by lemmas + correspondence + oracle",
+        design_ref="DESIGN.md 6.C20, 10.4"),
 }
 
 NOT_YET = "check under construction in this round (see DESIGN.md section 9); not claimed until it is green on the unchanged tree"
